@@ -7,6 +7,7 @@ import (
 	"fmt"
 	"math"
 	"math/big"
+	"strings"
 	"sync/atomic"
 
 	"verifharness/internal/gen"
@@ -517,6 +518,80 @@ func runC02(c *ctx) {
 			}
 		}
 	})
+	// (e3b) a PARTIAL fill leaves the other variables variables: the result (and a complete-looking message around it) still
+	// encodes to nothing, names what remains, and encodes its own values once the rest is filled. One node with several
+	// variables, every strict subset size, repeated because the order in which a map is walked varies from call to call
+	c.parallel(c.pick(6000, 60000), func(i int, r *rng.R) {
+		kinds := []ref.Kind{ref.I1, ref.I2, ref.I4, ref.I8, ref.U1, ref.U2, ref.U4, ref.U8, ref.F4, ref.F8, ref.B, ref.BOOLEAN}
+		k := kinds[i%len(kinds)]
+		g := gen.New(r, gen.Profile{})
+		n := 2 + r.Intn(7)
+		leaf := &ref.Item{Kind: k, Slots: make([]ref.Slot, n)}
+		var names []string
+		for j := range leaf.Slots {
+			leaf.Slots[j] = g.Value(k)
+			if r.Chance(3, 5) || (j >= n-2 && len(names) < 2) {
+				nm := fmt.Sprintf("p%d", j)
+				leaf.Slots[j] = ref.Slot{Var: nm}
+				names = append(names, nm)
+			}
+		}
+		tpl := leaf
+		if i%3 == 1 {
+			tpl = &ref.Item{Kind: ref.L, Children: []*ref.Item{g.Scalar(ref.U1), leaf}}
+		} else if i%3 == 2 {
+			tpl = &ref.Item{Kind: ref.L, Children: []*ref.Item{{Kind: ref.L, Children: []*ref.Item{leaf}}, g.Scalar(ref.A)}}
+		}
+		var node ast.ItemNode
+		if o := real.Try(func() { node = real.Build(tpl) }); o.Panicked {
+			return
+		}
+		sub := fullAssignment(g, tpl)
+		full, ok := ref.Fill(tpl, sub)
+		if !ok || len(full.Vars()) != 0 {
+			return
+		}
+		c.Class("item/derived-by-a-partial-fill")
+		c.Note(rng.Hash64(ref.Encode(full))^uint64(i), true)
+		for rep := 0; rep < 4; rep++ {
+			perm := r.Perm(len(names))
+			cut := 1 + r.Intn(len(names)-1)
+			first, rest := map[string]interface{}{}, map[string]interface{}{}
+			part := map[string]ref.Val{}
+			for j, p := range perm {
+				if j < cut {
+					first[names[p]] = rawOf(sub[names[p]])
+					part[names[p]] = sub[names[p]]
+				} else {
+					rest[names[p]] = rawOf(sub[names[p]])
+				}
+			}
+			model, _ := ref.Fill(tpl, part)
+			var half, whole ast.ItemNode
+			var hb, mb, wb []byte
+			var hv []string
+			o := real.Try(func() {
+				half = node.FillVariables(first)
+				hb, hv = half.ToBytes(), half.Variables()
+				mb = ast.NewDataMessage("", 1, 1, 1, "H->E", half).SetSessionIDAndSystemBytes(1, []byte{0, 0, 0, 1}).ToBytes()
+				whole = half.FillVariables(rest)
+				wb = whole.ToBytes()
+			})
+			cs := c02Case{Op: "item", Item: tpl}
+			if o.Panicked {
+				c.Violation("C02/partial-fill/refused", fmt.Sprintf("%s filled with %d of its %d variables, then with the rest: %s", clipS(ref.Print(tpl)), cut, len(names), o), cs)
+				return
+			}
+			if len(hb) != 0 || len(mb) != 0 || !real.EqStrs(hv, model.Vars()) {
+				c.Violation("C02/partial-fill/bytes-for-an-item-with-unfilled-variables", fmt.Sprintf("%s filled with only %v: ToBytes()=%x, in a message %x, Variables()=%v; %v are still unfilled (%s)", clipS(ref.Print(tpl)), keysOf(first), clipB(hb), clipB(mb), hv, model.Vars(), clipS(real.Str(half))), cs)
+				return
+			}
+			if want := ref.Encode(full); !bytes.Equal(wb, want) {
+				c.Violation("C02/partial-fill/bytes-differ-after-the-rest-was-filled", fmt.Sprintf("%s filled with %v and then %v: ToBytes()=%x, its values encode to %x", clipS(ref.Print(tpl)), keysOf(first), keysOf(rest), clipB(wb), clipB(want)), cs)
+				return
+			}
+		}
+	})
 	// (e4) items that reach the encoder through the SML parser from long decimal literals: the bytes are the IEEE-754
 	// pattern nearest to the decimal that was written (one rounding to the item's width)
 	c.parallel(c.pick(6000, 60000), func(i int, r *rng.R) {
@@ -690,6 +765,42 @@ func runC02(c *ctx) {
 		c.Class("msg/length>=2^24")
 		c02Msg(c, &ref.Msg{Stream: 6, Function: 11, W: 0, Dir: "H<-E", Item: many, Session: 1, Sys: [4]byte{0, 0, 0, 9}})
 	}
+	// a text at the item limit that arrives through a FILL: 16,777,215 characters encode with a three-byte length field;
+	// one more has no SECS-II encoding - the fill is refused, or whatever comes back encodes to nothing (never to a header
+	// whose length field wrapped)
+	for _, n := range []int{ref.MaxBytes, ref.MaxBytes + 1, ref.MaxBytes + 1 + 255} {
+		for route := 0; route < 3; route++ {
+			text := strings.Repeat("z", n)
+			var got, msgBytes []byte
+			o := real.Try(func() {
+				var tpl ast.ItemNode = ast.NewASCIINodeVariable("t", 0, -1)
+				if route == 1 {
+					tpl = ast.NewListNode(ast.NewUintNode(1, 1), ast.NewASCIINodeVariable("t", 3, -1))
+				}
+				if route == 2 {
+					m := ast.NewDataMessage("", 1, 1, 1, "H->E", tpl).SetSessionIDAndSystemBytes(7, []byte{0, 0, 0, 2}).FillVariables(map[string]interface{}{"t": text})
+					msgBytes = m.ToBytes()
+					return
+				}
+				it := tpl.FillVariables(map[string]interface{}{"t": text})
+				got = it.ToBytes()
+				msgBytes = ast.NewDataMessage("", 1, 1, 1, "H->E", it).SetSessionIDAndSystemBytes(7, []byte{0, 0, 0, 2}).ToBytes()
+			})
+			c.NoteBulk(1, 1)
+			c.Class("item/text-at-the-limit-by-fill")
+			cs := c02Case{Op: "fill-limit"}
+			if n == ref.MaxBytes {
+				okItem := route == 2 || (len(got) >= 4+n && got[len(got)-n-4] == 0x43 && got[len(got)-n-3] == 0xFF && got[len(got)-n-2] == 0xFF && got[len(got)-n-1] == 0xFF)
+				if o.Panicked || !okItem || len(msgBytes) < 14+4+n {
+					c.Violation("C02/fill-limit/text-of-16777215-characters", fmt.Sprintf("route %d: %s; item bytes %d (%x..), message bytes %d", route, o, len(got), clipB(got), len(msgBytes)), cs)
+				}
+				continue
+			}
+			if !o.Panicked && (len(got) != 0 || len(msgBytes) != 0) {
+				c.Violation("C02/fill-limit/bytes-for-a-text-beyond-the-item-limit", fmt.Sprintf("route %d: a fill with %d characters was accepted and encodes to %d bytes (%x..), in a message %d bytes (%x..)", route, n, len(got), clipB(got), len(msgBytes), clipB(msgBytes)), cs)
+			}
+		}
+	}
 	// an empty item (the placeholder the parsers use on errors) as a list element has no SECS-II encoding: a tree that
 	// holds one encodes to nothing, and so does a message around it - never to a header without its text
 	for _, build := range []func() ast.ItemNode{
@@ -711,7 +822,7 @@ func runC02(c *ctx) {
 			c.Violation("C02/msg/partial-bytes-for-a-tree-with-an-empty-item", fmt.Sprintf("item bytes %x, message bytes %x", clipB(itemBytes), clipB(msgBytes)), c02Case{Op: "empty-item"})
 		}
 	}
-	c.Required = []string{"empty-item-inside-a-list", "msg/length>=2^24", "msg/session-unset-again", "msg/complete", "msg/+vars", "msg/+optW", "msg/+nosession", "f4/finite-patterns", "f4round/in-range", "f4round/overflow", "lenbytes=3/A", "lenbytes=2/L", "item/decoded-from-another-spelling", "item/derived-by-several-fills", "item/sml-sourced-long-decimal", "item/zero-sign-neighbours", "item/float-from-integer-values", "msg/sml-sourced-header-glued-to-a-comment"}
+	c.Required = []string{"item/text-at-the-limit-by-fill", "empty-item-inside-a-list", "msg/length>=2^24", "msg/session-unset-again", "msg/complete", "msg/+vars", "msg/+optW", "msg/+nosession", "f4/finite-patterns", "f4round/in-range", "f4round/overflow", "lenbytes=3/A", "lenbytes=2/L", "item/decoded-from-another-spelling", "item/derived-by-several-fills", "item/derived-by-a-partial-fill", "item/sml-sourced-long-decimal", "item/zero-sign-neighbours", "item/float-from-integer-values", "msg/sml-sourced-header-glued-to-a-comment"}
 }
 
 func replayC02(c *ctx, raw json.RawMessage) {
